@@ -1,6 +1,6 @@
 (** Correspondence and property oracles for the matcher (C01, C02, C03):
     what the generated cases_match_*.v files evaluate. *)
-From Sheens Require Export Corr.Base Spec.Contain Spec.Embed.
+From Sheens Require Export Corr.Base Spec.Contain Spec.Embed Spec.EmbedOpt.
 
 Inductive gores : Type :=
 | GoOk (r : list bindings)
@@ -72,7 +72,22 @@ Definition c02_linear_applicable (c : mcase) : bool :=
   | _ => false
   end.
 
+(** the planted assignment leaves an optional variable out (or assigns it)
+    as Spec/EmbedOpt.v allows: C02_match_complete_optional applies *)
+Definition c02_opt_applicable (c : mcase) : bool :=
+  match mc_planted c, mc_bs c with
+  | Some sg, [] => c02_pre_opt (mc_p c) (mc_f c) sg && embeds_opt sg (mc_p c) (mc_f c)
+  | _, _ => false
+  end.
+
 Definition c02_case_ok (c : mcase) : bool :=
+  (if c02_opt_applicable c then
+     match mc_planted c, mc_go c with
+     | Some sg, GoOk rs => c02_found sg rs
+     | _, _ => false
+     end
+   else true)
+  &&
   (if c02_applicable c then
      match mc_planted c, mc_go c with
      | Some sg, GoOk rs => c02_found sg rs
@@ -93,6 +108,8 @@ Definition c02_violations (cases : list mcase) : list nat :=
 Definition c02_nontrivial (cases : list mcase) : nat :=
   count_true (fun c => c02_applicable c &&
                        match mc_planted c with Some (_ :: _) => true | _ => false end) cases.
+Definition c02_opt_count (cases : list mcase) : nat :=
+  count_true (fun c => c02_opt_applicable c && existsb is_optional (pvars (mc_p c))) cases.
 Definition c02_linear_count (cases : list mcase) : nat :=
   count_true (fun c => c02_linear_applicable c &&
                        match mc_go c with GoOk (_ :: _) => true | _ => false end) cases.
